@@ -100,7 +100,7 @@ def rule_key(ctx):
     if len(fs) != 1:
         raise Unrecognised('key', 'row template of the unspent dump not found')
     a = [canon(x[3]) for x in fs[0].args]
-    ctx.check('key', 'dump-txid=key[0..32]', a[0] == 'unwrap(from_slice(%s[Range::Range{start: 0, end: 32}]))' % k, fs[0].cs, 'txid column = %s' % a[0])
+    ctx.check('key', 'dump-txid=key[0..32]', a[0] == 'from_slice(%s[Range::Range{start: 0, end: 32}])?' % k, fs[0].cs, 'txid column = %s' % a[0])
     ctx.check('key', 'dump-index=u32le(key[32..])', a[1] == 'read_u32(%s[RangeFrom::RangeFrom{start: 32}])?' % k, fs[0].cs, 'index column = %s' % a[1])
     ru = [c for c in oc.calls if mir.method_name(c.name) == 'read_u32']
     ctx.check('key', 'dump-index-little-endian', len(ru) == 1 and any('LittleEndian' in g for g in ru[0].gargs), oc, 'read_u32::<%s>' % (ru[0].gargs if ru else '?'))
